@@ -675,7 +675,7 @@ Definition ex_after : list op :=
 
 Definition ex_ops2 : list op := ex_creates ++ Refresh ex_listing :: ex_after.
 
-Definition ex_final : state := run ex_addr_of (init [100%N]) (ex_ops1 ++ ex_ops2).
+Notation ex_final := (run ex_addr_of (init [100%N]) (ex_ops1 ++ ex_ops2)) (only parsing).
 
 Ltac ex_solve := cbv; intuition (try discriminate; subst; auto 10).
 
@@ -728,7 +728,7 @@ Proof.
   destruct ex_converges_hyps as [H1 H2].
   assert (E : ex_ops1 ++ ex_ops2 = (ex_ops1 ++ ex_creates) ++ Refresh ex_listing :: ex_after)
     by reflexivity.
-  unfold ex_final. rewrite E.
+  rewrite E.
   apply (converges ex_addr_of [100%N] (ex_ops1 ++ ex_creates) ex_listing ex_after); [|exact H1|exact H2].
   rewrite <- E. exact ex_valid.
 Qed.
